@@ -107,6 +107,10 @@ func (e *Exec) runTop() {
 			pv.Nil = False
 		}
 		f.env[fv] = v
+		if e.fvByName == nil {
+			e.fvByName = map[string]Value{}
+		}
+		e.fvByName[fv.Name()] = v
 		e.note("captured variables of a closure are unconstrained at entry")
 	}
 	s.frames = []*Frame{f}
